@@ -214,6 +214,8 @@ def resolve_operand(u, enforce, typed, m, operand, keep_payload=False):
             items.append(u.item(ki, 0 if p == "same" else p))
     if kind == "set":
         return set(items), items
+    if kind == "fset":
+        return frozenset(items), items
     return build(u, enforce, typed, []).__class__(items, key=u.keyfn(), enforce_item_equivalence=enforce), items
 
 
@@ -359,7 +361,7 @@ def run_case(ctx, case):
                 m.clear()
             elif name in BINARY_NEW + BINARY_CMP + BINARY_INPLACE:
                 kind = op[1][0]
-                if kind == "set" and not u.hashable and op[1][1]:
+                if kind in ("set", "fset") and not u.hashable and op[1][1]:
                     continue  # (a built-in set cannot hold unhashable items - but the empty built-in set is a legal operand)
                 # |= and ^= ADD items: under enforcement an unequal item under an existing key makes the whole operation raise
                 # ValueError "and changes nothing" - so these two also get operands whose payloads differ
@@ -526,6 +528,9 @@ def all_ops(u, typed, maxn_operand):
         for kind in ("ks", "set"):
             for operand in operands(u, maxn_operand):
                 ops.append([name, [kind, operand]])
+    for name in BINARY_CMP:  # the other built-in set type
+        for operand in operands(u, maxn_operand):
+            ops.append([name, ["fset", operand]])
     return ops
 
 
